@@ -65,6 +65,7 @@ def do_chunk(chunk):
         lines.append(rt.gensalt_line("ra", *a, 0))
         lines.append(rt.gensalt_line("st", *a, 0))
     rows = rt.run_resilient(w, setup, lines)
+    rt.errno_independence(acc, PID, w, setup[:2], lines, rows, FL, chunk[0]["m"] or "NULL")
     follow, fidx = [], []
     expensive_done = set()
     for ci, c in enumerate(chunk):
